@@ -45,6 +45,8 @@ def formulas(tier):
         for g in groups:
             out.append(f"y ~ x + ({e}|{g})")
     out += ["y ~ (x|g) + (x|h)", "y ~ (f|g + h)", "y ~ (f|g + h) - (1|h)", "y ~ (x + f|g)", "y ~ (0 + x:f|g)", "y ~ (1|C(k))", "y ~ (x|C(k))"]
+    # user-chosen reference levels (positions 0, 1, 2 of the level order)
+    out += ["y ~ T(g, 's')", "y ~ T(g, 't')", "y ~ T(g, 'u')", "y ~ x:C(g, Treatment('u'))", "y ~ T(h, 'r') + f", "y ~ T(k, 3)"]
     # operator spellings that build several terms from one written factor
     out += ["y ~ f/g", "y ~ f/x", "y ~ g/f/x", "y ~ f:(g + x)", "y ~ (f + g)**2", "y ~ 0 + (f + g)**2", "y ~ f*g*x", "y ~ (f + g):x", "y ~ x/f"]
     # categorical / subset responses
